@@ -725,6 +725,25 @@ pub fn check_state(sys: &Sys, t: &Tables, g: &G) -> Vec<(String, String)> {
             }
         }
     }
+    // C02, premise of the uniqueness argument: a timeout vote of a correct replica for view v reports,
+    // as its high vote, the replica's latest commit vote of a view <= v (a commit vote of view <= v was
+    // signed before the timeout vote of view v: C03). Both are read off the messages the replica signed.
+    let tv = timeout_votes(t, g);
+    for (view, by_signer) in &tv {
+        for (signer, ids) in by_signer {
+            if *signer == sys.z {
+                continue;
+            }
+            let latest: Option<AVote> = groups.iter().filter(|((cv, _), votes)| *cv <= *view && votes.iter().any(|x| x.0 == *signer)).map(|((_, a), _)| a.clone()).max_by_key(|a| a.view);
+            for id in ids {
+                let validator::ConsensusMsg::V2(v2::ChonkyMsg::ReplicaTimeout(tm)) = &t.msgs[*id as usize].msg.msg else { continue };
+                let reported = tm.high_vote.as_ref().map(avote);
+                if reported != latest {
+                    v.push(("stale_high_vote_reported".into(), format!("validator #{signer} signed a timeout vote for view {view} reporting the high vote {reported:?}, but the latest commit vote it signed in a view <= {view} is {latest:?}")));
+                }
+            }
+        }
+    }
     v
 }
 
